@@ -403,11 +403,15 @@ theorem frame_slot_step (W : World) (f : Nat) (ih : FrameAt W f) :
         exact frame_of_eq_stack ⟨pop_of_frame_push st.stack st1.stack [] hs (fpush.trans f1.1), f1.2⟩
       · exact ih.list _ _ _ _ _ hs h
     · split at h
+      · simp only [Res.ok.injEq, Prod.mk.injEq] at h; rw [← h.2]; exact Frame.refl st
+      · split at h
+        · exact ih.list _ _ _ _ _ hs h
+        · simp only [Res.ok.injEq, Prod.mk.injEq] at h; rw [← h.2]; exact Frame.refl st
+  · split at h
+    · simp only [Res.ok.injEq, Prod.mk.injEq] at h; rw [← h.2]; exact Frame.refl st
+    · split at h
       · exact ih.list _ _ _ _ _ hs h
       · simp only [Res.ok.injEq, Prod.mk.injEq] at h; rw [← h.2]; exact Frame.refl st
-  · split at h
-    · exact ih.list _ _ _ _ _ hs h
-    · simp only [Res.ok.injEq, Prod.mk.injEq] at h; rw [← h.2]; exact Frame.refl st
 
 /-- THE EVALUATOR INVARIANT: at every fuel, every evaluator function leaves the variable stack at its depth, never touches a scope below
     the top one nor the root data, and only adds to the v-once `seen` set; an include restores the stack exactly. -/
